@@ -24,6 +24,10 @@ SOURCES = {
     "ldn": (lambda d: "%d" % d.ldn, ["-i", "ldn"]),
     "mdn": (lambda d: "%d" % d.mdn, ["-i", "mdn"]),
     "jdn": (lambda d: "%.1f" % (d.o + cal.JDN_OFF), ["-i", "jdn"]),
+    # a Julian day number begins at noon: N.0 .. N.49 lie in the afternoon of the civil day that N - 0.5 starts
+    "jdnnoon": (lambda d: "%d" % (d.o + cal.JDN_OFF + 0.5), ["-i", "jdn"]),
+    # (the type is a single-precision float: a quarter of a day is all the resolution there is)
+    "jdnpm": (lambda d: "%.2f" % (d.o + cal.JDN_OFF + 0.75), ["-i", "jdn"]),
     # year + week count + weekday in the two non-ISO week conventions
     "yUu": (lambda d: "%04d-%02d-%d" % (d.y, d.wk_U, d.iwd), ["-i", "%Y-%U-%u"]),
     "yWu": (lambda d: "%04d-%02d-%d" % (d.y, d.wk_W, d.iwd), ["-i", "%Y-%W-%u"]),
@@ -159,6 +163,8 @@ def main(tier, seed):
             continue
         for tgt in ["big"] + NAMED:
             days = other
+            if src in ("jdnnoon", "jdnpm") and tgt == "jdn":
+                continue        # (printed back as the number that was given)
             if tier == "quick" and tgt in ("ldn", "jdn", "mdn") and src not in ("ywd", "ymcw"):
                 # day-number targets from the remaining sources: the first and last two years of the domain,
                 # the years around the epochs of the day counts, and a slice of the rest
